@@ -83,6 +83,40 @@ def fresh_cif(cr):
     raise AnalysisError("Crystal.to_cif_data: CIF dictionary literal not found")
 
 
+def alternatives_order(chk, rule, cr, rev, rq, w):
+    """Alternative names: `for k in (A, B): if k in data: use data[k]; break` takes the FIRST name present.  The exported dictionary is the
+    retained one updated with the fresh items, so a stale alternative stays in it: the name the writer refreshes must be the one the reader
+    tries first (or the stale one wins on reading back)."""
+    # alternative names: `for k in (A, B): if k in data: use data[k]; break` takes the FIRST name present.  The exported dictionary is
+    # the retained one updated with the fresh items, so a stale alternative stays in it: the name the writer refreshes must be the one the
+    # reader tries first (or the stale one wins on reading back)
+    import ast as _ast
+    fn = getattr(rev, "fn", None) or cr.funcs[rq]
+    tuples = {}
+    for n in _ast.walk(fn):
+        if isinstance(n, _ast.Assign) and len(n.targets) == 1 and isinstance(n.targets[0], _ast.Name) and isinstance(n.value, (_ast.Tuple, _ast.List)) \
+                and n.value.elts and all(isinstance(x, _ast.Constant) and isinstance(x.value, str) for x in n.value.elts):
+            tuples[n.targets[0].id] = [x.value for x in n.value.elts]
+    for n in _ast.walk(fn):
+        if not (isinstance(n, _ast.For) and isinstance(n.target, _ast.Name)):
+            continue
+        if isinstance(n.iter, (_ast.Tuple, _ast.List)) and all(isinstance(x, _ast.Constant) and isinstance(x.value, str) for x in n.iter.elts):
+            group = [x.value for x in n.iter.elts]
+        elif isinstance(n.iter, _ast.Name) and n.iter.id in tuples:
+            group = tuples[n.iter.id]
+        else:
+            continue
+        first = n.body[0] if n.body else None
+        takes_first = isinstance(first, _ast.If) and any(isinstance(x, _ast.Break) for x in _ast.walk(first)) and \
+            isinstance(first.test, _ast.Compare) and isinstance(first.test.ops[0], _ast.In) and isinstance(first.test.left, _ast.Name) \
+            and first.test.left.id == n.target.id
+        written = [k for k in group if k in w]
+        if takes_first and written and len(group) > 1:
+            chk.ob(rule, CR, rq, f"of the alternative names {group} the reader tries first the one the writer refreshes ({written[0]!r}): a stale "
+                   "alternative retained in the exported dictionary must not win on reading back", group[0] in w, node=n,
+                   fingerprint=f"alternatives:{written[0]}", expected=f"{written[0]!r} first", found=f"tried in the order {group}")
+
+
 def r10_1(chk, repo, cr):
     w, wev = fresh_cif(cr)
     chk.saw(CR, "Crystal.to_cif_data")
@@ -131,34 +165,7 @@ def r10_1(chk, repo, cr):
                found=sorted(read))
     chk.ob("R10.1", CR, rq, "the operations are written under one of the names the reader tries",
            any(k in w for k in tried), found=f"tried {tried}")
-    # alternative names: `for k in (A, B): if k in data: use data[k]; break` takes the FIRST name present.  The exported dictionary is
-    # the retained one updated with the fresh items, so a stale alternative stays in it: the name the writer refreshes must be the one the
-    # reader tries first (or the stale one wins on reading back)
-    import ast as _ast
-    fn = getattr(rev, "fn", None) or cr.funcs[rq]
-    tuples = {}
-    for n in _ast.walk(fn):
-        if isinstance(n, _ast.Assign) and len(n.targets) == 1 and isinstance(n.targets[0], _ast.Name) and isinstance(n.value, (_ast.Tuple, _ast.List)) \
-                and n.value.elts and all(isinstance(x, _ast.Constant) and isinstance(x.value, str) for x in n.value.elts):
-            tuples[n.targets[0].id] = [x.value for x in n.value.elts]
-    for n in _ast.walk(fn):
-        if not (isinstance(n, _ast.For) and isinstance(n.target, _ast.Name)):
-            continue
-        if isinstance(n.iter, (_ast.Tuple, _ast.List)) and all(isinstance(x, _ast.Constant) and isinstance(x.value, str) for x in n.iter.elts):
-            group = [x.value for x in n.iter.elts]
-        elif isinstance(n.iter, _ast.Name) and n.iter.id in tuples:
-            group = tuples[n.iter.id]
-        else:
-            continue
-        first = n.body[0] if n.body else None
-        takes_first = isinstance(first, _ast.If) and any(isinstance(x, _ast.Break) for x in _ast.walk(first)) and \
-            isinstance(first.test, _ast.Compare) and isinstance(first.test.ops[0], _ast.In) and isinstance(first.test.left, _ast.Name) \
-            and first.test.left.id == n.target.id
-        written = [k for k in group if k in w]
-        if takes_first and written and len(group) > 1:
-            chk.ob("R10.1", CR, rq, f"of the alternative names {group} the reader tries first the one the writer refreshes ({written[0]!r}): a stale "
-                   "alternative retained in the exported dictionary must not win on reading back", group[0] in w, node=n,
-                   fingerprint=f"alternatives:{written[0]}", expected=f"{written[0]!r} first", found=f"tried in the order {group}")
+    alternatives_order(chk, "R10.1", cr, rev, rq, w)
     # axis agreement
     uc = P.atom(("attr", P.name("self"), "unit_cell"))
     for ax, nm in enumerate("abc"):
